@@ -117,6 +117,19 @@ NoMisclaim(s, tr) == (Done(s) /\ tr \in Formats) => s.res = [k |-> "accept", v |
 CursorReset(s)   == s.cur = 0
 
 -----------------------------------------------------------------------------
+(* Implementation-shaped (drift level, never the property): the gate each   *)
+(* parser with a magic number applies before anything else. h = first bytes *)
+(* of the input, g = the four bytes at e_lfanew when the input starts with  *)
+(* "MZ". elf.py:477 (IDENT.unpack), pe.py:327/351 (DOSHdr, COFFHdr),        *)
+(* macho.py:96-103. COFF, HEX and SREC have no magic number.                *)
+MagicOK(f, h, g) ==
+  CASE f = "ELF"   -> Len(h) >= 4 /\ SubSeq(h, 1, 4) = <<127, 69, 76, 70>>
+    [] f = "PE"    -> Len(h) >= 2 /\ SubSeq(h, 1, 2) = <<77, 90>> /\ g = <<80, 69, 0, 0>>
+    [] f = "MachO" -> Len(h) >= 4 /\ SubSeq(h, 1, 4) \in {<<206, 250, 237, 254>>, <<207, 250, 237, 254>>,
+                                                          <<202, 254, 186, 190>>}
+    [] OTHER       -> TRUE
+
+-----------------------------------------------------------------------------
 (* G: the fault space over the corpus                                       *)
 
 Bases == ndJsonDeserialize(IOEnv.IDENT_BASES)
